@@ -235,6 +235,32 @@ def physconst_service_ops(draw) -> list:
     return ops
 
 
+def badcand_service_ops(draw) -> list:
+    """a service with two positive responses sharing the constant prefix, one of which has a non-conforming
+    DIAG-CODED-TYPE (strict mode reports it when that candidate is tried); operations: layer decode"""
+    from hypothesis import strategies as st
+    u8 = {"t": "std", "bt": "A_UINT32", "bl": 8, "enc": None, "hl": None}
+    sid = draw(st.integers(1, 0x3E))
+    bad = dict(u8, enc=draw(st.sampled_from(["2C", "UTF-8", "IEEE754", "1C", "UCS-2"])))
+
+    def dop(i, dct):
+        return {"k": "simple", "id": f"d{i}", "dct": dict(dct), "compu": {"c": "IDENTICAL"}, "pt": "A_UINT32"}
+    req = {"kind": "request", "id": "rq", "params": [
+        {"pk": "const", "name": "sid", "pos": 0, "bit": 0, "dct": dict(u8), "v": sid},
+        {"pk": "value", "name": "arg", "pos": 1, "bit": 0, "dop": dop("a", u8), "default": None}]}
+    resps = []
+    order = draw(st.permutations([("good", u8), ("bad", bad)]))
+    for i, (nm, dct) in enumerate(order):
+        resps.append({"kind": "response", "rtype": "POS-RESPONSE", "id": f"pr_{nm}", "params": [
+            {"pk": "const", "name": "sid", "pos": 0, "bit": 0, "dct": dict(u8), "v": sid + 0x40},
+            {"pk": "value", "name": "val", "pos": 1, "bit": 0, "dop": dop(f"v{i}", dct), "default": None}]})
+    msgs = [req] + resps
+    x = draw(st.integers(0, 255))
+    rq = bytes([sid, draw(st.integers(0, 255))])
+    return [{"op": "multi-layer-decode", "msgs": msgs, "data": bytes([sid + 0x40, x]).hex(), "request": rq.hex(),
+             "label": "bad-candidate:" + bad["enc"]}]
+
+
 def run_op(op, cache: dict):
     """executed inside a worker; returns the outcome under the *current* strict_mode"""
     from vlib import emit
@@ -500,7 +526,7 @@ def run_shard(spec, seed, tier):
 
     @st.composite
     def nrc_strat(draw):
-        return nrc_service_ops(draw) + physconst_service_ops(draw)
+        return nrc_service_ops(draw) + physconst_service_ops(draw) + badcand_service_ops(draw)
 
     @hypothesis.seed(seed + 1)
     @core.hyp_settings(max(10, n // 10), shrink=False)
